@@ -148,9 +148,19 @@ where
 
 impl<'a, T, L: MutLayout> SplitIterator for AxisChunks<'a, T, L> {
     fn split_at(mut self, index: usize) -> (Self, Self) {
+        assert!(index <= self.len());
         let (left_remainder, right_remainder) = if let Some(remainder) = self.remainder.take() {
-            let (l, r) = remainder.split_at(self.axis, self.chunk_size * index);
-            (Some(l), Some(r))
+            // The last chunk may be shorter than `chunk_size`.
+            let mid = (self.chunk_size * index).min(remainder.size(self.axis));
+            let (l, r) = remainder.split_at(self.axis, mid);
+
+            // An exhausted iterator has no remainder. An empty remainder
+            // would be yielded as an (empty) chunk.
+            let axis = self.axis;
+            (
+                Some(l).filter(|view| view.size(axis) > 0),
+                Some(r).filter(|view| view.size(axis) > 0),
+            )
         } else {
             (None, None)
         };
@@ -176,9 +186,19 @@ impl<'a, T, L: MutLayout + Send> IntoParallelIterator for AxisChunks<'a, T, L> {
 
 impl<'a, T, L: MutLayout> SplitIterator for AxisChunksMut<'a, T, L> {
     fn split_at(mut self, index: usize) -> (Self, Self) {
+        assert!(index <= self.len());
         let (left_remainder, right_remainder) = if let Some(remainder) = self.remainder.take() {
-            let (l, r) = remainder.split_at_mut(self.axis, self.chunk_size * index);
-            (Some(l), Some(r))
+            // The last chunk may be shorter than `chunk_size`.
+            let mid = (self.chunk_size * index).min(remainder.size(self.axis));
+            let (l, r) = remainder.split_at_mut(self.axis, mid);
+
+            // An exhausted iterator has no remainder. An empty remainder
+            // would be yielded as an (empty) chunk.
+            let axis = self.axis;
+            (
+                Some(l).filter(|view| view.size(axis) > 0),
+                Some(r).filter(|view| view.size(axis) > 0),
+            )
         } else {
             (None, None)
         };
